@@ -163,6 +163,33 @@ func (p *Proc) onlcr() bool {
 	return t.Oflag&syscall.OPOST != 0 && t.Oflag&syscall.ONLCR != 0
 }
 
+// TypeIntoKernel writes bytes to the pty master: they sit in the terminal's own input queue, as keys do that
+// were typed while the application was not reading (the simulated keyboard goes through the Stdin seam instead).
+// The kernel hands them to the line discipline from a worker of its own: when b ends a line (or the terminal
+// is not in canonical mode) the call waits, in real time, until they are all there.
+func (p *Proc) TypeIntoKernel(b []byte) error {
+	_, err := p.Master.Write(b)
+	ts := syscall.Timespec{Nsec: 100_000}
+	for i := 0; i < 5000 && p.KernelQueue() < len(b); i++ {
+		syscall.Nanosleep(&ts, nil)
+	}
+	return err
+}
+
+// KernelQueue tells how many bytes are waiting in the terminal's input queue (FIONREAD on the slave).
+func (p *Proc) KernelQueue() int {
+	var n int32
+	if err := ioctl(p.Slave.Fd(), 0x541B /* FIONREAD */, unsafe.Pointer(&n)); err != nil {
+		return -1
+	}
+	return int(n)
+}
+
+// FlushKernelQueue empties the terminal's input queue (TCFLSH, TCIFLUSH).
+func (p *Proc) FlushKernelQueue() {
+	syscall.Syscall(syscall.SYS_IOCTL, p.Slave.Fd(), 0x540B /* TCFLSH */, 0 /* TCIFLUSH */)
+}
+
 type winsize struct{ Row, Col, X, Y uint16 }
 
 func (p *Proc) setSize(w, h int) {
